@@ -60,6 +60,9 @@ def mk_chunks(S, ch):
 
 
 def replay(case: dict) -> list[str]:
+    if "raw" in case:
+        sent = [bytes.fromhex(x) for x in case["raw"]]
+        return stream_errors(sent, mk_chunks(b"".join(sent), case["chunking"]))
     seq = case["seq"]
     if "repeat" in case:
         seq = seq * case["repeat"]
@@ -145,6 +148,45 @@ def _work_long(task) -> core.Part:
     return p
 
 
+def ident_variants():
+    """Identification lines over the syntax's corner cases: 0/1/2 escape sequences x id length 0/1/15/16, both line ends."""
+    out = []
+    for esc in (b"", b"\\2", b"\\2\\W"):
+        for idlen in (0, 1, 15, 16):
+            ident = b"/ELL5" + esc + b"ABCDEFGH12345678"[:idlen]
+            for eol in (b"\r\n", b"\n"):
+                out.append(RP.build_readout(ident, [b"1-0:1.7.0(0001.320*kW)"], eol=eol, blank_after_ident=False))
+    return out
+
+
+def _work_idents(task) -> core.Part:
+    lo, hi = task
+    p = core.Part()
+    var = ident_variants()
+    sh = shapes()
+    for r in var[lo:hi]:
+        assert RP.dissect(r)["ident_ok"], r
+        sent = [sh["r27"], r, r, sh["r45"]]
+        S = b"".join(sent)
+        n = len(S)
+        p.add("nontrivial")
+        fam = [("cuts", []), ("bytewise",)] + [("cuts", [i]) for i in range(1, n)] + [("fixed", k, ph) for k in range(2, 33) for ph in range(k)]
+        for ch in fam:
+            chunks = mk_chunks(S, ch)
+            got, _ = P.feed(chunks)
+            p.add("executions")
+            p.add("events", len(chunks))
+            ok = [m.as_bytes for m in got] == sent and all(m.is_valid is True for m in got)
+            p.out("all_delivered" if ok else "loss_or_corruption")
+            if not ok:
+                p.viol("clean_delivery", f"clean_delivery:ident:{r[:30]!r}:{list(ch)}", f"readouts with identification line {r.split(b'(')[0][:32]!r} chunking={list(ch)}: returned {len(got)} of 4 readouts",
+                       {"raw": [x.hex() for x in sent], "chunking": list(ch)}, size=n)
+                if p.full("clean_delivery"):
+                    p.capped = True
+                    return p
+    return p
+
+
 def main(run: core.Run) -> int:
     q = run.quick
     run.rule = ("streams = sequences of 1..3 readouts from 7 shapes (27 B..6 KiB), optional leading proper suffix of a readout, and homogeneous/alternating "
@@ -168,6 +210,8 @@ def main(run: core.Run) -> int:
     tasks = split_tasks
     run.log(f"short streams: {len(tasks)} partitions")
     run.merge(par.pmap(_work_short, tasks, seed=run.seed))
+    nv = len(ident_variants())
+    run.merge(par.pmap(_work_idents, [(i, i + 2) for i in range(0, nv, 2)], seed=run.seed))
     tt = []
     for tail_of in (names if not q else ["r27", "r45", "r_lf", "r1k"]):
         L = len(sh[tail_of])
@@ -198,7 +242,7 @@ def main(run: core.Run) -> int:
     tot = run.total
     tot.sample({"stream": "r45 x 910 (40 KiB)", "chunking": "fixed size 45, phase 10", "expect": "910 readouts byte-identical"})
     tot.sample({"stream": (sh["r27"] + sh["r45"]).decode(), "chunkings": "one-shot, octet-wise, every single cut, every pair of cuts"})
-    run.bounds = {"short_streams": f"{len(tasks)} sequences", "tails": "every proper suffix of " + ("4" if q else "7") + " shapes before two readouts",
+    run.bounds = {"identification_variants": "0/1/2 escape sequences x id length 0/1/15/16 x LF/CRLF: every single cut, fixed 2..32 x every phase", "short_streams": f"{len(tasks)} sequences", "tails": "every proper suffix of " + ("4" if q else "7") + " shapes before two readouts",
                   "long_streams": f"{len(lt)} (stream, k) combinations x every phase (k<=96; for larger k the first/last 32 phases and 48 evenly spaced ones); totals " + ("40 KiB" if q else "120..300 KiB")}
     run.assumptions = ["readout builder mc/ref/p1.py; identification lines restricted to IEC-legal characters (no '/', '!')"]
     ex = tot.c.get("executions", 0)
